@@ -52,10 +52,14 @@ Latitude (DESIGN C12-L)
     omits the qualifier); with update_translations=False nothing is demanded.
   * only consistent frame vectors are generated (GenBank has one /codon_start per CDS); the start frame is compared, the
     remaining frames are the business of C05 (construct_frames_from_location).
-  * environment: bcv.compat restores SeqFeature(strand=) by ignoring it; Biopython <= 1.79 applied it to the location
-    and the writer relies on that for the gene-level records (GeneInterval locations are always PLUS).  The check probes
-    the behaviour at run time; while the kwarg is not honoured, gene / misc_feature records may carry +1 or the source
-    strand (transcript, CDS and feat_interval strands are strict either way).
+  * force_strand=True and False are both run: on single-strand models the flag is a documented no-op, so the same
+    records are demanded (this is what makes a wrong strand in Location.to_biopython observable: with force_strand=True
+    the writer's strand= kwarg repairs it, with False the children are skipped as "strand mismatch").
+  * environment: the writer relies on SeqFeature(strand=) being applied to the location (Biopython <= 1.79) for the
+    gene-level records (GeneInterval locations are always PLUS).  bcv.compat restores that since commit 8be276e; the check
+    still probes the behaviour at run time and, should the kwarg not be honoured, accepts +1 or the source strand on
+    gene / misc_feature records only (counted under counters.gene_level_strand_relaxed_compat_shim; transcript, CDS and
+    feat_interval strands are strict either way).
 """
 import io
 import random
@@ -75,14 +79,14 @@ RULE = (
     "1..5 exons with 0-bp gaps, both strands, 0..2 single-strand feature collections, chromosome 90..600 bp, identifiers "
     "present / partially absent / duplicated symbols; layouts: disjoint position-sorted genes (all three modes + agreement), "
     "overlapping genes (LOCUS_TAG + HYBRID), duplicated locus tags (SORTED + HYBRID); a grid of single genes over strand x "
-    "start frame x exon count x CDS mode; each collection x {prokaryotic, eukaryotic} x update_translations x 3 parser modes; "
+    "start frame x exon count x CDS mode; each collection x {prokaryotic, eukaryotic} x update_translations x force_strand (a no-op on single-strand models) x 3 parser modes; "
     "independent-writer records (Biopython) with /codon_start 1..3, INSDC or ascending part order, shuffled features. "
     "Signature = (leg, flavour, update_translations, layout, per gene: coding/biotype, strand, #exons, #CDS blocks, "
     "0-gap pattern, start frame, UTR class, identifier mode; #feature collections); non-trivial = some gene is multi-exon, "
     "on the minus strand or has a non-zero start frame, or there are >= 2 genes."
 )
-SCOPE = {"quick": {"NE": 1500, "NI": 700, "GRID": 1}, "thorough": {"NE": 18000, "NI": 7000, "GRID": 6}}
-FLOOR = {"quick": 800, "thorough": 6000}
+SCOPE = {"quick": {"NE": 6400, "NI": 2800, "GRID": 1}, "thorough": {"NE": 60000, "NI": 25000, "GRID": 10}}
+FLOOR = {"quick": 3000, "thorough": 25000}
 REQUIRED_MONITORS = ["ind.sequence", "ind.record-type", "ind.location", "ind.strand", "ind.identifiers", "ind.census", "ind.translation",
                      "lib.parse", "lib.structure", "lib.strand", "lib.start-frame", "lib.identifiers", "lib.mode-agreement",
                      "iw.parse", "iw.structure", "iw.strand", "iw.start-frame", "iw.identifiers", "iw.mode-agreement"]
@@ -248,7 +252,7 @@ def cases(spec, ctx):
                             cs = {"genes": [g], "fcolls": [], "name": "coll", "sequence_name": "chr1", "start": None, "end": None, "qualifiers": {}}
                             yield {"kind": "export" if (idx // n) % 3 else "indwriter", "flavour": flavour, "update_translations": True,
                                    "layout": "disjoint", "glen": glen, "gseed": rng.randrange(1 << 30), "nfrac": 0.0, "stale": False, "spec": cs,
-                                   "iw": _iw_opts(rng)}
+                                   "force_strand": bool(idx % 2), "iw": _iw_opts(rng)}
     # ---- random collections ----------------------------------------------------------------------------------------
     for kind, total in (("export", sc["NE"]), ("indwriter", sc["NI"])):
         for k in range(total // n + 1):
@@ -263,7 +267,7 @@ def cases(spec, ctx):
             cs = _collection(rng, glen, ng, nf, layout)
             yield {"kind": kind, "flavour": FLAVOURS[k % 2], "update_translations": bool((k // 2) % 2) or kind == "indwriter", "layout": layout,
                    "glen": glen, "gseed": rng.randrange(1 << 30), "nfrac": 0.04 if rng.random() < 0.08 else 0.0,
-                   "stale": rng.random() < 0.15, "spec": cs, "iw": _iw_opts(rng)}
+                   "stale": rng.random() < 0.15, "spec": cs, "force_strand": rng.random() < 0.5, "iw": _iw_opts(rng)}
 
 
 def _iw_opts(rng):
@@ -573,7 +577,7 @@ def _reader_leg(case, ctx, text, srcs, leg, has_codon_start):
                 diff = _first_diff(views[ref], views[m])
             ctx.check(leg + ".mode-agreement", same, key=("agree", ref, m, flavour, layout), first_difference=diff)
     else:
-        ctx.seen(leg + ".mode-agreement", 0)
+        ctx.bump("mode_agreement_not_applicable_duptag_or_failed_parse")
 
 
 def _first_diff(a, b, path=""):
@@ -647,13 +651,13 @@ def _iw_text(srcs, genome, flavour, opts):
 # ----------------------------------------------------------------------------------------------------------------
 # one case
 # ----------------------------------------------------------------------------------------------------------------
-def _export(coll, flavour, upd):
+def _export(coll, flavour, upd, force_strand):
     from inscripta.biocantor.io.genbank.writer import GenbankFlavor, collection_to_genbank
 
     h = io.StringIO()
     with warnings.catch_warnings():
         warnings.simplefilter("ignore")
-        collection_to_genbank([coll], h, genbank_type=GenbankFlavor[flavour], update_translations=upd)
+        collection_to_genbank([coll], h, genbank_type=GenbankFlavor[flavour], force_strand=force_strand, update_translations=upd)
     return h.getvalue()
 
 
@@ -667,9 +671,7 @@ def run_case(case, ctx):
     ctx.note(sig, nontrivial=nontrivial, klass=f"{case['kind']}-{flavour[:4].lower()}-{case['layout']}")
 
     if case["kind"] == "indwriter":
-        if flavour == "PROKARYOTIC":
-            # the prokaryotic style has no transcript-level record: the transcript the parser infers IS the CDS
-            pass
+        # (prokaryotic style: no transcript-level record, the transcript the parser infers IS the CDS)
         text = _iw_text(srcs, genome, flavour, case["iw"])
         _reader_leg(case, ctx, text, srcs, "iw", True)
         return
@@ -682,7 +684,7 @@ def run_case(case, ctx):
     if exc is not None:
         ctx.check("lib.parse", False, key=("constructor-raised", type(exc).__name__), exc=repr(exc)[:300])
         return
-    text, exc = ctx.call(_export, coll, flavour, case["update_translations"])
+    text, exc = ctx.call(_export, coll, flavour, case["update_translations"], bool(case.get("force_strand", True)))
     if exc is not None:
         ctx.check("ind.sequence", False, key=("export-raised", flavour, type(exc).__name__), exc=repr(exc)[:300])
         return
